@@ -360,7 +360,15 @@ def normal_form(cx, http, DS, text):
             q = http.parse_cache_control_header(d)
             cx.eq("normal-form", text, d, dict(q), dict(p), "C06/normal-form:cache-control")
         p = first(http.parse_date, text)
-        if p is not SKIP and p is not None and 1000 <= p.year <= 9999:
+        if p is not SKIP and p is not None:
+            try:
+                # the documented domain is an *instant* representable as an HTTP date (years 1000..9999 in UTC)
+                pu = p.astimezone(timezone.utc)
+                if not (datetime(1000, 1, 2, tzinfo=timezone.utc) <= pu <= datetime(9999, 12, 30, tzinfo=timezone.utc)):
+                    p = None
+            except (OverflowError, ValueError):
+                p = None
+        if p is not SKIP and p is not None:
             d = http.http_date(p)
             cx.eq("normal-form", text, d, http.parse_date(d), p, "C06/normal-form:date")
         for cls, nm in ((DS.Authorization, "authorization"), (DS.WWWAuthenticate, "www-authenticate")):
